@@ -1,0 +1,29 @@
+//go:build verif
+
+package types
+
+// Contracts for the deductive verifier in /verif (govc). Comment-only; compiled only with -tags verif.
+//
+// The account address is a truncated hash (cosmos-sdk address.Module) of a preimage built here. What is proved is
+// the preimage layout: every component is prefixed with its 8-byte big-endian length, which makes the layout
+// injective in (client id, sender, salt). Collision resistance of the hash itself is assumed (T-crypto).
+
+//@ spec func gmpPreimage(c string, s string, t string) string = be64(len(c)) + c + be64(len(s)) + s + be64(len(t)) + t
+
+//@ contract uint64LengthPrefix
+//@   pure
+//@   requires len(bz) < 9223372036854775808
+//@   ensures str(result) == be64(len(bz)) + str(bz)
+
+//@ contract UnmarshalPacketData
+//@   pure
+//@   trusted decoding GMP packet data (protobuf / JSON / ABI by encoding) is a deterministic function of the bytes, version and encoding
+
+//@ contract DeserializeCosmosTx
+//@   pure
+//@   trusted decoding the payload's messages (protobuf or proto3 JSON, Any unpacking) is a deterministic function of the codec and the bytes
+
+//@ contract BuildAddressPredictable
+//@   requires len(accountID.ClientId) < 9223372036854775808 && len(accountID.Sender) < 9223372036854775808 && len(accountID.Salt) < 9223372036854775808
+//@   ensures preimage_layout: err == nil ==> exists h string :: str(result0) == substr(h, 0, AccountAddrLen) && h == addressModule(accountsKey, gmpPreimage(accountID.ClientId, accountID.Sender, str(accountID.Salt)))
+//@   ensures valid_inputs_only: err == nil ==> host.ClientIdentifierValidator(accountID.ClientId) == nil && strings.TrimSpace(accountID.Sender) != ""
